@@ -107,7 +107,30 @@ OPS = ['digest', 'media', 'text', 'data201', 'media-resp', 'stream-len', 'stream
        'err404', 'err400-headers', 'err-invalid-header', 'err422', 'err405', 'redir301', 'redir302', 'redir303',
        'redir307', 'redir308', 'httpstatus', 'cookies', 'multi-header', 'boom', 'resp-attrs', 'partial', 'noroute',
        'empty-data-media', 'empty-text-data', 'empty-media-stream', 'stream-file',
-       'mw-dep-complete', 'mw-indep-complete', 'mw-dep-refuse', 'params-write', 'status204-media', 'status304-media']
+       'mw-dep-complete', 'mw-indep-complete', 'mw-dep-refuse', 'params-write', 'status204-media', 'status304-media',
+       # a registered error handler COMPOSES a draft (media / data / text) and then raises an HTTPStatus without
+       # text, an HTTPStatus with text, or an HTTPError: the draft is discarded on both stacks alike
+       'eh-media-status', 'eh-data-status', 'eh-text-status', 'eh-media-statustext', 'eh-text-error', 'eh-data-error']
+
+
+class _EhErr(Exception):
+    pass
+
+
+def _eh_body(op, resp):
+    draft, then = op.split('-')[1:3]
+    if draft == 'media':
+        resp.media = {'draft': 'composed by the handler \xe9'}
+    elif draft == 'data':
+        resp.data = b'draft-bytes'
+    else:
+        resp.text = 'draft text'
+    resp.set_header('X-Draft', draft)
+    if then == 'status':
+        raise falcon.HTTPStatus(falcon.HTTP_202, headers={'X-S': 's'})
+    if then == 'statustext':
+        raise falcon.HTTPStatus(falcon.HTTP_203, text='final \xe9')
+    raise falcon.HTTPTooManyRequests(title='slow', description='down', retry_after=3)
 
 
 def names(seed):
@@ -359,6 +382,9 @@ def _logic(op, nm, is_async, req, resp, kw):
         resp.text = 'm'
     elif op == 'boom':
         raise RuntimeError('boom')
+    elif op.startswith('eh-'):
+        resp.text = 'responder draft'
+        raise _EhErr()
     elif op.startswith('mw-'):
         resp.text = 'responder ran'
     elif op == 'resp-attrs':
@@ -482,6 +508,14 @@ def build_apps(op, opts, nm):
             app = cls(middleware=_mw_stack(op, kind == 'asgi'), independent_middleware=op.startswith('mw-indep'))
         else:
             app = cls()
+        if op.startswith('eh-'):
+            if kind == 'wsgi':
+                def eh(req, resp, ex, params, _op=op):
+                    _eh_body(_op, resp)
+            else:
+                async def eh(req, resp, ex, params, _op=op):
+                    _eh_body(_op, resp)
+            app.add_error_handler(_EhErr, eh)
         ro = app.req_options
         ro.strip_url_path_trailing_slash, ro.keep_blank_qs_values, ro.auto_parse_qs_csv = opts
         ro.media_handlers[falcon.MEDIA_MULTIPART].parse_options.max_body_part_buffer_size = MP_PART_LIMIT
